@@ -68,7 +68,11 @@ func c07Gen(class string, seed uint64, tier string) *vfScenario {
 	case x < 70:
 		f.A, f.B, f.S = 1, int64([]int{0, 0, 5, 9, 13}[rng.IntN(5)]+rng.IntN(30)*(rng.IntN(2))), fmt.Sprint(rng.IntN(8))
 	case x < 90:
-		f.A, f.B = 2, int64(rng.IntN(256))
+		// mostly another request type (the body is then decoded by another decoder), sometimes any byte
+		f.A, f.B = 2, int64([]int{3, 4, 5, 6, 7, 8, 9, 10, 11, 12, 13, 14, 15, 16, 17, 18, 19, 20, 200, 1}[rng.IntN(20)])
+		if rng.IntN(4) == 0 {
+			f.B = int64(rng.IntN(256))
+		}
 	case x < 96:
 		f.A, f.B = 3, int64(1+rng.IntN(12))
 	default:
@@ -126,6 +130,11 @@ func c07Enumerate(tier string, base uint64, emit func(*vfScenario)) {
 			}
 			for t := (ri * 3) % tstep; t < 256; t += tstep {
 				add(vfFault{A: 2, B: int64(t)})
+			}
+			if tstep > 1 {
+				for _, t := range []int{1, 3, 4, 5, 6, 7, 8, 9, 10, 11, 12, 13, 14, 15, 16, 17, 18, 19, 20, 200} {
+					add(vfFault{A: 2, B: int64(t)}) // every request type in every tier
+				}
 			}
 			add(vfFault{A: 3, B: 5})
 			add(vfFault{A: 4})
